@@ -120,8 +120,10 @@ let () =
               let s = get_sim () in
               let wn = n_of_int (int_of_string w) in
               let pend = List.map (fun b -> Hashtbl.find blocks (int_of_string b)) (List.tl pend) in
-              let sc_i = List.map int_of_string (List.tl sc) in
-              let sched = List.map nat_of_int sc_i in
+              (* sc = <nreads> <index at BeginReadTx> <index of read 0> ... *)
+              let sc_all = List.map int_of_string (List.tl sc) in
+              let sched = List.map nat_of_int sc_all in
+              let sc_i = List.tl sc_all in
               let q = match kind with
                 | "WB" -> QWalletBalance (wn, zs minconf)
                 | "AB" -> QAddressBalance (wn, List.map (fun x -> n_of_int (int_of_string x)) shs, zs minconf)
@@ -131,7 +133,7 @@ let () =
               let impl = String.concat " " ansl in
               let model = show_ans (answer ord false ss sched q) in
               let nr = int_of_nat (nreads ord false ss sched q) in
-              let lo = (match sc_i with [] -> 0 | x :: _ -> x) and hi = List.fold_left max 0 sc_i in
+              let lo = List.hd sc_all and hi = List.fold_left max 0 sc_all in
               let boundary = ref (-1) in
               for j = hi downto lo do
                 if show_ans (answer_at ord ss (nat_of_int j) q) = impl then boundary := j
@@ -149,7 +151,7 @@ let () =
               incr k;
               Printf.printf "V\t%s\t%d\t%s\t%s\t%s\t%d\t%d\t%d\t%d\t%d\t%s\n" !hist !k kind impl model
                 (List.length sc_i) nr !boundary (if snap = impl then 1 else 0) imm
-                (String.concat "," (List.map string_of_int sc_i))
+                (String.concat "," (List.map string_of_int sc_all))
             | _ -> print_endline ("X\t" ^ line))
          | _ -> print_endline ("X\t" ^ line))
     | "X" :: _ -> print_endline ("X\t" ^ line)
